@@ -1,4 +1,4 @@
 ---- MODULE MC_dbg ----
 EXTENDS MC_LoadRef
-DbgModels == {"absonly"}
+DbgModels == {"contany"}
 ====
